@@ -74,6 +74,17 @@ PROPS = {
         'oracles': [_x('C11'), _f('comp_upload', 'oracle_c11_realscale'), _f('comp_sema', 'blocking_oracle_c11')],
         'modelled': ['permit accounting of the upload-chunk semaphore, the sliding window, the io queue'],
     },
+    'C19': {
+        'lean': 'C19',
+        'corr': [_f('comp_procpool', 'corr')],
+        'oracles': [_f('comp_procpool', 'oracle')],
+        'modelled': ['processpool.TransferMonitor / TransferState, GetObjectSubmitter._do_run, GetObjectWorker._do_run, '
+                     'ProcessPoolDownloader.download_file / shutdown / __exit__, ProcessPoolTransferFuture (ProcPool model: one label per '
+                     'monitor call, queue operation and file-system operation)',
+                     'real OS processes, multiprocessing.Queue and the BaseManager proxy: replaced by scheduler threads, cooperative FIFO '
+                     'queues and a yielding proxy of the real TransferMonitor (the classes are constructed, never started)',
+                     'the retry loop inside one GetObject job: executed (retryable / fatal / mid-body faults), abstracted to wWrite | wFail'],
+    },
     'C20': {
         'lean': 'C20',
         'corr': [_f('comp_crt', 'corr'), _f('comp_crt', 'sched_corr')],
